@@ -168,3 +168,10 @@ Example C01_static_wins_example :
                      {| Decl.do_types := true; Decl.do_decl := false; Decl.do_typed := true |} [d true 5; d false 6])
   = [(1, false, Decl.DOk 9 5)].
 Proof. vm_compute. reflexivity. Qed.
+
+(* the whole declaration (triple-slash references, self types, JSX import source, JSDoc imports and the
+   types header are entered before the descriptors) reduces to the descriptor fold when there are none *)
+Theorem C01_declaration_without_extras : forall T fo ds,
+  Decl.declared_full T fo Decl.no_extras ds = (None, Decl.declared T (Decl.fo_base fo) ds).
+Proof. exact DeclProofs.declared_full_no_extras. Qed.
+Print Assumptions C01_declaration_without_extras.
